@@ -409,7 +409,7 @@ def _none_constructor_md(loader, tag_suffix, node):
 @rethrow_as_parsing_error
 def _simple_path_constructor(loader, node):
     from .nodes.path import PathNode
-    return _make_node(loader, node, node_type=PathNode, kwargs={ 'ref_point': None })
+    return _make_node(loader, node, node_type=PathNode, kwargs={ 'ref_point': None }, dict_is_data=False)
 
 
 @rethrow_as_parsing_error
@@ -561,7 +561,9 @@ def _node_representer(dumper, node):
         parent = parent_metadata.get(f, None) if parent_metadata else None
         default = type_defaults[f]
         if current is not None:
-            if current == parent or current == default:
+            # an explicit delete flag is observable as such when merging (and may differ from what
+            # the node would inherit), so it is always written out
+            if f != 'delete' and (current == parent or current == default):
                 del metadata[f]
         else:
             del metadata[f]
@@ -621,7 +623,7 @@ def _node_representer(dumper, node):
                 if data is None:
                     assert tag.startswith('!null')
                     with dumper.force_unquoted():
-                        return dumper.represent_scalar('!null', '', style='')
+                        return dumper.represent_scalar(tag, '', style='')
                 with dumper.force_unquoted():
                     if isinstance(data, ConfigScalar):
                         return dumper.represent_scalar(tag, repr(data._dyn_base(data)))
